@@ -661,6 +661,12 @@ def get_mypy_type(node: Node) -> Type | SymbolNode | None:
                 and (member := ty.names.get(name))
                 and member.node
             ):
+                if (
+                    isinstance(ty, TypeInfo) and ty.is_enum and isinstance(member.node, Var)
+                ):  # pragma: no cover
+                    # `Color.RED` is a `Color`, whatever the type of the value assigned to `RED` is
+                    return Instance(ty, [])
+
                 return get_mypy_type(member.node)
 
             if isinstance(ty, Instance) and (member := ty.type.get(name)) and member.node:
